@@ -46,6 +46,13 @@ PROC = {
 
 def _all_command_classes():
     from bumble import hci
+    # vendor command classes register themselves when their module is imported (bumble imports the drivers lazily, during
+    # the first Host.reset()): import them up front so that the registry - and with it the generated case - does not depend
+    # on what ran earlier in this process
+    import bumble.drivers.intel  # noqa: F401
+    import bumble.drivers.rtk  # noqa: F401
+    import bumble.vendor.android.hci  # noqa: F401
+    import bumble.vendor.zephyr.hci  # noqa: F401
 
     return sorted(hci.HCI_Command.command_classes.items())
 
